@@ -17,6 +17,7 @@
   Helper lemmas: CRProofs/BenchId.lean (digits, split/join, matcher on the normal form, grammar), CRProofs/BenchIdValid.lean.
 -/
 import CRProofs.BenchIdValid
+import CRProofs.BenchIdGrammar
 set_option linter.unusedSimpArgs false
 namespace CR.BenchId
 
@@ -61,6 +62,25 @@ theorem C13_pattern_accepts {cs : List Str} (hcs : CountriesOk cs) {r : Raw} (hv
 
 /-! ### solutions -/
 
+/-- C13 (b''): the model of the code's pattern decides exactly the id grammar — for every string. -/
+theorem C13_pattern_iff_grammar (s : Str) : (matchId s).isSome = true ↔ Matches idRE s := by
+  constructor
+  · intro h
+    cases hg : matchId s with
+    | none => simp [hg] at h
+    | some g => exact matchId_sound hg
+  · intro h
+    obtain ⟨g, hg⟩ := matchId_complete h
+    simp [hg]
+
+/-- C13 (a, converse): every word of the id grammar that `from_benchmark_id` accepts (known country, supported
+    version) yields an id that prints as exactly that word, and parsing that print gives the same id again —
+    for any country table. -/
+theorem C13_print_parse (cs : List Str) {s v : Str} {i : Id} (hs : Matches idRE s) (h : parse cs s v = .ok i) :
+    print i = s ∧ i.version = v ∧ parse cs (print i) v = .ok i := by
+  obtain ⟨h1, h2⟩ := print_parse_grammar cs hs h
+  exact ⟨h1, h2, by rw [h1]; exact h⟩
+
 /-- C13 (c): the benchmark id `vehicles:costs:scenario:version` of a solution with any non-empty list of
     (vehicle model, vehicle type, cost function) triples — one entry (single) or several (cooperative, bracketed
     lists) — is read back by the solution reader to the same models, types, cost functions, scenario id and version. -/
@@ -103,6 +123,9 @@ example : print (norm exRawDefaults) =
 example : parse exCountries (print (norm exRaw)) exRaw.version = .ok (norm exRaw) :=
   C13_parse_print exCountries_ok exRaw_valid
 example : Matches idRE (print (norm exRawDefaults)) := C13_grammar exCountries_ok exRawDefaults_valid
+example : (matchId ['Z', 'A', 'M', '_', 'a', '-', '0', '1']).isSome = false := by decide   -- leading zero: not in the grammar
+example : ¬ Matches idRE ['Z', 'A', 'M', '_', 'a', '-', '0', '1'] :=
+  fun h => by have := (C13_pattern_iff_grammar _).2 h; revert this; decide
 example : benchmarkId [(.PM, .FORD_ESCORT), (.KST, .VW_VANAGON)] [.JB1, .SA1] (norm exRaw) =
     ['[', 'P', 'M', '1', ',', 'K', 'S', 'T', '3', ']', ':', '[', 'J', 'B', '1', ',', 'S', 'A', '1', ']', ':',
      'C', '-', 'U', 'S', 'A', '_', 'U', 'S', '1', '0', '1', '-', '3', '3', '_', '2', '_', 'T', '-', '1', '-', '2', ':',
